@@ -102,8 +102,20 @@ def history_scenarios(bases=None):
             yield {"kind": "config", "base": bi, "config": dict(base), "history": {"kind": "rerun_new_weather", "first_word": first}}
 
 
+def irregular_record_scenarios(bases=None):
+    """The user's weather record is longer than the simulation and NOT one row per day before the window (a missing month, a
+    duplicated day, rows dropped without re-indexing): the simulated days must still get the record carrying their date."""
+    bases = bases or A.WATER_BASES
+    for bi in (0, 3, 8):
+        for extra in ({"lead": 400, "drop_lead_rows": [100, 131]}, {"lead": 400, "dup_lead_row": 37}, {"lead": 400, "keep_labels_from": 150}, {"lead": 120, "trail": 60, "drop_lead_rows": [5, 6]}):
+            yield {"kind": "config", "base": bi, "config": dict(bases[bi]), "weather_extra": extra}
+
+
 def run_with(scn, monitor_cls, pid):
     spec = spec_of(scn)
+    if scn.get("weather_extra"):
+        spec = copy.deepcopy(spec)
+        spec["weather"].update(scn["weather_extra"])
     model = None
     if scn.get("history"):
         from ..driver import watchdog
@@ -146,6 +158,7 @@ def water_scenarios(tier, bases=None, menus=None, full=True):
     bases = bases or A.WATER_BASES
     menus = menus or A.WATER_MENUS
     yield from history_scenarios(bases)
+    yield from irregular_record_scenarios(bases)
     if tier == "quick":
         yield from config_scenarios(bases, menus, 1)
         yield from weather_scenarios(bases, stride=4)
